@@ -283,7 +283,10 @@ def random_instance(rng, max_v=8, max_n=5):
         if r["k"] in ("init", "ii"):
             taken = used.setdefault(r["g"], set())
             cand = [x for x in RV_POOL if x not in (NONE, "") and x not in taken]
-            nm = rng.choice(cand)
+            if cand:
+                nm = rng.choice(cand)
+            else:  # pool exhausted: initializer names of one graph must be distinct
+                nm = f"u{v}"
             taken.add(nm)
         else:
             nm = rng.choice(RV_POOL)
